@@ -21,6 +21,7 @@ func selftest(seed uint64, seeds, par int) int {
 		b.cleanup()
 		fatal2("%v", err)
 	}
+	applyBuildLimits(b)
 	corp, err := loadCorpus(filepath.Join(verifDir(), "corpus"))
 	if err != nil {
 		fatal2("corpus: %v", err)
